@@ -36,14 +36,37 @@ def unb64(s):
 # ------------------------------------------------------------ Unescape cases
 ALPHA = [0x5c, ord("u"), ord("x"), ord("{"), ord("}"), ord("0"), ord("1"), ord("a"), ord("F"), ord('"'),
          0x0a, 0x0d, ord("n"), 0xc3, 0xa9, 0xff]
+ALPHA4 = [0x5c, ord("u"), ord("x"), ord("{"), ord("}"), ord("0"), ord("a"), ord('"'), 0x0a, 0x0d, 0xc3, 0xff]
 PIECES = [b"\\u{", b"\\u", b"\\x", b"}", b"{", b"\\", b"\\n", b"\\t", b"\\\\", b'\\"', b"\\'", b"\\`", b"\\\n", b"41", b"e9", b"1f600",
           b"d800", b"10ffff", b"110000", b"1234567", b"12345678", b"g", b"A", b"\r\n", b"\r", b"\n", b"\xc3\xa9", b"\xe2\x82\xac",
           b"\xf0\x9f\x98\x80", b"\xed\xa0\x80", b"\xc0\x80", b"\xf4\x90\x80\x80", b"\xe2\x82", b"\xff", b"\x80", b"\x00", b"7f", b"80", b"fF", b" "]
 
 
+HEX = "0123456789abcdefABCDEF"
+
+
+def gen_escape(rng):
+    """One escape sequence around the boundaries of the decoder: digit counts 0..10, leading zeros
+    (so that long sequences stay below MaxRune), values at the surrogate / MaxRune edges, missing braces."""
+    r = rng.random()
+    if r < 0.55:
+        k = rng.choice([0, 1, 2, 3, 4, 5, 6, 6, 7, 7, 8, 8, 9, 10])
+        v = rng.choice([0x41, 0xe9, 0x7f, 0x80, 0x7ff, 0x800, 0xd7ff, 0xd800, 0xdfff, 0xe000, 0xffff, 0x10000, 0x10ffff, 0x110000, rng.randrange(0x120000)])
+        digits = ("%x" % v).rjust(k, "0")[-k:] if k else ""
+        if rng.random() < 0.3:
+            digits = "".join(rng.choice(HEX + "g") for _ in range(k))
+        s = "\\u" + rng.choice(["{", "{", "{", "", "}"]) + digits + rng.choice(["}", "}", "}", "", "{", "}}"])
+        return s.encode()
+    if r < 0.8:
+        return ("\\x" + "".join(rng.choice(HEX + "g") for _ in range(rng.choice([0, 1, 2, 2, 2, 3])))).encode()
+    return rng.choice(PIECES)
+
+
 def gen_unescape(rng):
     r = rng.random()
-    if r < 0.5:
+    if r < 0.35:
+        return b"".join(gen_escape(rng) for _ in range(rng.randint(1, 3)))
+    if r < 0.6:
         return b"".join(rng.choice(PIECES) for _ in range(rng.randint(0, 7)))
     if r < 0.8:
         return bytes(rng.choice(ALPHA) for _ in range(rng.randint(0, 12)))
@@ -255,6 +278,7 @@ def corpus_cases():
 
 
 def run(ck):
+    parts = os.environ.get("C10_PARTS", "ABC")     # development switch only; registered commands run all parts
     ck.obligations()
     ck.build_harness()
     rng = ck.rng
@@ -287,12 +311,17 @@ def run(ck):
                 ucases.append((unb64(c["b"]), isb, "corpus"))
     exh_len = ck.n(3, 4)
     nexh = 0
-    for n in range(exh_len + 1):
+    for n in range(3 + 1):
         for t in itertools.product(ALPHA, repeat=n):
             for isb in (False, True):
                 ucases.append((bytes(t), isb, "exhaustive"))
                 nexh += 1
-    for _ in range(ck.n(3000, 40000)):
+    if not ck.quick:                      # length 4 over the 12-byte sub-alphabet
+        for t in itertools.product(ALPHA4, repeat=4):
+            for isb in (False, True):
+                ucases.append((bytes(t), isb, "exhaustive"))
+                nexh += 1
+    for _ in range(ck.n(2000, 30000) if "A" in parts else 0):
         ucases.append((gen_unescape(rng), rng.random() < 0.5, "random"))
     ck.log("A: %d unescape cases" % len(ucases))
     uouts = ck.run_go("c10_unescape", [{"b": b64(s), "bytes": isb} for s, isb, _ in ucases])
@@ -300,7 +329,7 @@ def run(ck):
     for (s, isb, _), o in zip(ucases, uouts):
         uterms.append(cq_unescape(s, isb, o["out"]) if "out" in o else cq_unescape(s, isb, {"k": "panic"}))
     ck.log("A: go done, judging in coq")
-    uverd = ck.run_coq(PID, "judge_unescape", uterms, shard=max(200, len(uterms) // 16 + 1), tag="u")
+    uverd = ck.run_coq(PID, "judge_unescape", uterms, shard=max(400, len(uterms) // 12 + 1), tag="u")
     ukinds = {"val": 0, "err": 0, "panic": 0}
     udis = 0
     for (s, isb, src), o, v in zip(ucases, uouts, uverd):
@@ -329,7 +358,7 @@ def run(ck):
         for t in itertools.product(SC_EXH, repeat=n):
             scases.append(("exhaustive", ("\n".join(t) + ("\n" if n else "")).encode()))
             nsc_exh += 1
-    for _ in range(ck.n(2500, 30000)):
+    for _ in range(ck.n(2000, 20000) if "B" in parts else 0):
         shape, d = gen_sc(rng)
         if not big_ok and any(len(tok) > 6 and tok.lstrip(b"-+").isdigit() for tok in d.split()):
             continue
@@ -350,7 +379,7 @@ def run(ck):
         sterms.append(cq_sc(d, o["out"]))
         sidx.append(i)
     ck.log("B: go done, judging in coq")
-    sverd = ck.run_coq(PID, "judge_sc", sterms, shard=max(100, len(sterms) // 16 + 1), tag="s")
+    sverd = ck.run_coq(PID, "judge_sc", sterms, shard=max(200, len(sterms) // 12 + 1), tag="s")
     sdis = 0
     for i, t, v in zip(sidx, sterms, sverd):
         if v == 0:
@@ -371,7 +400,7 @@ def run(ck):
     # ---------------- C. fuzz loop over the whole front end (search, not proof)
     ck.log("C: fuzz loop")
     nproc = 8 if ck.quick else 16
-    per = ck.n(2600, 10 ** 9)
+    per = ck.n(2600, 10 ** 9) if "C" in parts else 1
     secs = 0 if ck.quick else 540
     seeds = [rng.randrange(1, 2 ** 40) for _ in range(nproc)]
     t0 = time.time()
@@ -416,8 +445,8 @@ def run(ck):
         "rule": "A: Unescape inputs (distinct strings containing a backslash); B: fact files with a header and at least one more line (distinct); "
                 "C: fuzz inputs distinct by hash per process. A and B are judged against the Coq model, C only for panic/timeout",
         "exhaustive": True,
-        "exhaustive_scope": "A: every string of length <= %d over the %d-byte alphabet %s in both modes (%d cases); B: every file of <= %d lines over %d lines %s (%d cases). C (fuzz) is NOT exhaustive."
-                            % (exh_len, len(ALPHA), [hex(a) for a in ALPHA], nexh, ck.n(3, 4), len(SC_EXH), SC_EXH, nsc_exh),
+        "exhaustive_scope": "A: every string of length <= 3 over the %d-byte alphabet %s (thorough: also length %d over the 12-byte sub-alphabet) in both modes (%d cases); B: every file of <= %d lines over %d lines %s (%d cases). C (fuzz) is NOT exhaustive."
+                            % (len(ALPHA), [hex(a) for a in ALPHA], exh_len, nexh, ck.n(3, 4), len(SC_EXH), SC_EXH, nsc_exh),
         "unescape": {"cases": len(ucases), "impl_outcomes": ukinds, "disagreements": udis},
         "simple_column": {"cases": len(scases), "impl_outcomes": skinds, "error_classes": serrs, "shapes": sshapes, "disagreements": sdis},
         "fuzz": {"NOT_A_PROOF": "runtime search only: parse/analysis/engine are not modelled; absence of a failure here proves nothing",
